@@ -17,6 +17,8 @@ agree = Base.agree; nontrivial = Base.nontrivial; signature = Base.signature; ex
 
 def classify(op, m):
     t = op.split(' ')
+    if t[0] == 'cbor.enc':
+        return f'cbor.enc:{m.split(" ")[0]}'
     if t[0] == 'cbor.dec.seq':
         return f'{t[0]}:{t[1]}:{m.split(" ")[0]}'
     first = t[1][:2] if t[1] != '-' else 'empty'
@@ -145,3 +147,23 @@ def generate(tier, rng):
             yield f'cbor.dec.seq {kind} {c} -'
             yield f'cbor.dec.seq {kind} {c}{c} {hexs(head(0, 5))}'
 
+
+
+def run(ctx):
+    """decoder ops (generate), then the round trip of the statement's first clause: values through the real ENCODER (compared with the
+    model's encoder), and what the real encoder produced through the real decoder (compared with the model's decoder)"""
+    rng = ctx.rng
+    ctx.both(list(generate(ctx.tier, rng)))
+    vals = near([0, 24, 256, 65536, 2**31, 2**32, 2**53, 2**62, 2**63, 2**64 - 1], 2, 0, 2**64 - 1)
+    enc = []
+    for v in vals:
+        enc.append((f'cbor.enc 1 u{v}', 'cbor.dec.uint'))
+        if v <= 2**31: enc.append((f'cbor.enc 1 a{v}', 'cbor.dec.arr'))
+    for n_ in (0, 1, 23, 24, 255, 256, 65535, 65536):
+        enc.append((f'cbor.enc 1 b{hexs(rbytes(rng, n_))}', 'cbor.dec.bytes'))
+        enc.append((f'cbor.enc 1 t{hexs(b"a" * n_)}', 'cbor.dec.text'))
+    g, m = ctx.both([e for e, d in enc])
+    back = [f'{d} {x.split(" ")[1]}' for (e, d), x in zip(enc, g) if x and x.startswith('ok ')]
+    # the expected value is the model's decode of the MODEL's encoding (proved equal to the input, C12.roundtrip_*); a Go encoder that
+    # emitted something else has already disagreed above, and a Go decoder that reads it back differently disagrees here
+    ctx.both(back)
